@@ -2,6 +2,7 @@ package props
 
 import (
 	"fmt"
+	"math"
 	"os"
 	"path/filepath"
 	"runtime"
@@ -114,6 +115,23 @@ func TestC04_Filters(t *testing.T) {
 		db := gen.Load(t, cmds)
 		q, qc := gen.Query(t, cmds, []gen.QueryClass{"vocab", "vocab", "nlp", "typo", "typo", "fragment", "fragment", "one", "mixed"})
 		opt := gen.Options(t, gen.OptSpec{N: len(cmds), NoNegLimit: true})
+		unencodable := false
+		if rapid.IntRange(0, 3).Draw(t, "unencodable-boost") == 0 {
+			// a boost that is not a finite number (the engine ignores NaN and non-positive factors):
+			// the caching layers cannot render such a request as JSON and key it another way
+			unencodable = true
+			v := rapid.SampledFrom([]float64{math.NaN(), math.Inf(-1)}).Draw(t, "non-finite")
+			if rapid.Bool().Draw(t, "non-finite-pipeline-boost") {
+				opt.PipelineBoost = v
+			} else {
+				cb := map[string]float64{}
+				for k, x := range opt.ContextBoosts {
+					cb[k] = x
+				}
+				cb[rapid.SampledFrom(gen.Vocab).Draw(t, "non-finite-key")] = v
+				opt.ContextBoosts = cb
+			}
+		}
 		warmed := warmUp(t, db, cmds, q, opt)
 		path := rapid.SampledFrom([]string{"universal", "universal", "cached", "cached-delta", "cached-delta", "monitored", "legacy-pipeline", "cached-switch"}).Draw(t, "path")
 		var res []database.SearchResult
@@ -129,11 +147,29 @@ func TestC04_Filters(t *testing.T) {
 			c := database.NewMonitoredDatabase(db)
 			for i := rapid.IntRange(1, 3).Draw(t, "warmups"); i > 0; i-- {
 				w := opt
-				w.AllPlatforms = rapid.Bool().Draw(t, "w-all")
-				w.NoCrossPlatform = rapid.Bool().Draw(t, "w-nocross")
-				w.PipelineOnly = rapid.Bool().Draw(t, "w-ponly")
-				if rapid.Bool().Draw(t, "w-platforms") {
-					w.Platforms = rapid.SliceOfN(rapid.SampledFrom([]string{"linux", "windows", "macos", "darwin"}), 0, 2).Draw(t, "w-pl")
+				if rapid.Bool().Draw(t, "w-one-field") {
+					// the request under test but for ONE filter setting
+					switch rapid.IntRange(0, 3).Draw(t, "w-field") {
+					case 0:
+						w.AllPlatforms = !w.AllPlatforms
+					case 1:
+						w.NoCrossPlatform = !w.NoCrossPlatform
+					case 2:
+						w.PipelineOnly = !w.PipelineOnly
+					case 3:
+						if len(w.Platforms) > 0 {
+							w.Platforms = nil
+						} else {
+							w.Platforms = rapid.SliceOfN(rapid.SampledFrom([]string{"linux", "windows", "macos", "darwin"}), 1, 2).Draw(t, "w-pl1")
+						}
+					}
+				} else {
+					w.AllPlatforms = rapid.Bool().Draw(t, "w-all")
+					w.NoCrossPlatform = rapid.Bool().Draw(t, "w-nocross")
+					w.PipelineOnly = rapid.Bool().Draw(t, "w-ponly")
+					if rapid.Bool().Draw(t, "w-platforms") {
+						w.Platforms = rapid.SliceOfN(rapid.SampledFrom([]string{"linux", "windows", "macos", "darwin"}), 0, 2).Draw(t, "w-pl")
+					}
 				}
 				if rapid.Bool().Draw(t, "w-monitored") {
 					c.SearchWithOptionsAndMonitoring(q, w)
@@ -181,6 +217,9 @@ func TestC04_Filters(t *testing.T) {
 		labels := []string{"path:" + path, "q:" + string(qc)}
 		if warmed > 0 {
 			labels = append(labels, "warmed-database")
+		}
+		if unencodable {
+			labels = append(labels, "non-finite-boost")
 		}
 		off := opt
 		off.UseFuzzy = false
